@@ -11,6 +11,7 @@ package main
 //   TV <vertex fields> | <verify 0/1> | <addleaf tag> <ledger changed 0/1>
 
 import (
+	"sort"
 	"sync"
 	"time"
 
@@ -229,6 +230,17 @@ func mutantsOf(c *Ctx, o accountant.Vertex, other accountant.Vertex, stranger, s
 }
 
 // genesisOf: the parentless vertex of a ledger
+// ledgerAndIndexKey: vertices, edges AND the transaction index (a refused vertex must not leave a claim on its
+// transaction behind)
+func ledgerAndIndexKey(s *accountant.VerifSnap) string {
+	var ix []string
+	for t, v := range s.Index {
+		ix = append(ix, fmt.Sprintf("%x:%x", t[:6], v))
+	}
+	sort.Strings(ix)
+	return ledgerKey(s) + fmt.Sprint(ix)
+}
+
 func genesisOf(ab *accountant.AccountingBook) accountant.Vertex {
 	for _, gv := range ab.VerifSnapshot().Vertices {
 		if gv.LeftParentHash == [32]byte{} && gv.RightParentHash == [32]byte{} {
@@ -303,11 +315,11 @@ func init() {
 						}
 					}
 					b := recv
-					before := ledgerKey(ptr(b.ab.VerifSnapshot()))
+					before := ledgerAndIndexKey(ptr(b.ab.VerifSnapshot()))
 					verr := accountant.VerifVerifyVertex(&m.v, w.ver)
 					cp := m.v
 					aerr := b.ab.AddLeaf(w.ctx, &cp)
-					after := ledgerKey(ptr(b.ab.VerifSnapshot()))
+					after := ledgerAndIndexKey(ptr(b.ab.VerifSnapshot()))
 					if before != after || aerr == nil {
 						b.cancel()
 						recv = nil
